@@ -290,6 +290,25 @@ def run_case(ctx, case):
     mo.duration = u1.duration + 4
     L.expect(mo, to, False, "after duration changed in place", None)
     L.expect(mo, Operation(list(u1.machines), u1.duration + 4), True, "fresh object with new duration", None)
+    # operations built from an int machine id own their machines list
+    L = Laws(ctx, "operation")
+    mid = rng.randrange(0, 4)
+    p1, p2, p3 = Operation(mid, 3), Operation(mid, 3), Operation(mid, 3)
+    L.expect(p1, p2, True, "int machine id, before in-place change", None)
+    p1.machines.append(mid + 1)
+    L.expect(p1, p2, False, "machines list extended in place on one of them", None)
+    L.expect(p2, p3, True, "untouched twins after the change", None)
+    L.expect(p2, Operation(mid, 3), True, "new operation after the change", None)
+    # a schedule rebuilt from its dictionary form equals the original (several instances share a name)
+    if not gen.is_flexible(inst):
+        L = Laws(ctx, "schedule")
+        try:
+            L.expect(SA, Schedule.from_dict(**SA.to_dict()), True, "from_dict(to_dict())", None)
+            if what in ("duration",):
+                SM2 = build_schedule(mut, M, list(Run(mut).r.history) or [])
+        except Exception as e:
+            ctx.violation("c15_schedule_dict_round_trip_raised", {"error": repr(e)[:200]})
+        ctx.count("schedule_dict_round_trips")
     ctx.evaluations += 1
     if len(ctx.samples) < 3:
         ctx.samples.append({"instance": inst, "mutation": what, "history": hist})
